@@ -424,6 +424,8 @@ def obs_requests(H, rng):
            ({"o": "isFrozen"}, bool(H.is_frozen)), ({"o": "netAttrs"}, A(H._net_attr)),
            ({"o": "isolates"}, S(H.nodes.isolates())), ({"o": "singletons"}, S(H.edges.singletons())),
            ({"o": "emptyEdges"}, S(H.edges.empty())),
+           ({"o": "nodeAttrDict"}, [[enc_id(n), A(a)] for n, a in H._node_attr.items()]),
+           ({"o": "edgeAttrDict"}, [[enc_id(e), A(a)] for e, a in H._edge_attr.items()]),
            ({"o": "nextAutoId"}, guard(lambda: next_auto(H)))]
     for n in some_n:
         obs += [({"o": "hasNode", "n": enc_id(n)}, n in H.nodes),
